@@ -180,7 +180,8 @@ func (c *Checker) s35CRCCase(sh s35Shape, stuffing int) string {
 	var calls []crcCall
 	n, sig, _, why := c.decodeForEncode(sh, &calls)
 	if why != "" {
-		return why
+		// no signal to encode: the layout says nothing about the checksum clause (decoding is C08's subject)
+		return "skip: " + why
 	}
 	if stuffing > 0 {
 		n.call(sig, "SetAlignmentStuffing", constInt(int64(stuffing), 64, false))
